@@ -473,10 +473,12 @@ class VirtualFileSystem(FileSystem[str]):
 
     def walk_folder(self, folder: str = '') -> Iterator[File[Self]]:
         """Return all files that are 'subfolders' of the provided folder."""
-        folder = self._clean_path(folder)
+        # normpath('') is '.', the empty folder means everything. Otherwise match whole path components.
+        prefix = self._clean_path(folder).rstrip('/') + '/' if folder.strip('/\\') not in ('', '.') else ''
 
-        for filename, data in self._mapping.values():
-            if filename.startswith(folder):
+        # The keys are the cleaned (case-folded) names, like the prefix.
+        for clean_name, (filename, data) in self._mapping.items():
+            if clean_name.startswith(prefix):
                 yield File(self, filename, filename)
 
     def _file_exists(self, name: str) -> bool:
